@@ -378,6 +378,90 @@ func runWeights(c *core.Ctx) {
 	}
 }
 
+// runDegenerate: one read with a stretch of ambiguity codes dense enough for a single window to stand
+// for more than 2^20 words (e.g. nine n, one b, one r at k=11: 1 572 864). The node table is compared
+// with a numeric dictionary (k-mer code -> count x occurrences) built window by window.
+func runDegenerate(c *core.Ctx) {
+	quiet()
+	r := c.Rng
+	k := 11 + r.Intn(3)
+	three, two := "bdhv", "rykmsw"
+	block := []byte(strings.Repeat("n", 9))
+	block = append(block, three[r.Intn(4)], two[r.Intn(6)])
+	if r.Intn(2) == 0 {
+		block = append(block, two[r.Intn(6)])
+	}
+	block = block[:min(len(block), k)]
+	r.Shuffle(len(block), func(i, j int) { block[i], block[j] = block[j], block[i] })
+	read := append(append(gen.DNA(r, 5+r.Intn(20)), block...), gen.DNA(r, k+r.Intn(20))...)
+	count := 1 + r.Intn(4)
+	code := map[byte]uint64{'a': 0, 'c': 1, 'g': 2, 't': 3}
+	exp := map[uint64]uint{}
+	largest := 0
+	for i := 0; i+k <= len(read); i++ {
+		cur := []uint64{0}
+		for _, b := range read[i : i+k] {
+			set := ref.BaseSet(b)
+			next := make([]uint64, 0, len(cur)*len(set))
+			for _, key := range cur {
+				for j := 0; j < len(set); j++ {
+					next = append(next, key<<2|code[set[j]])
+				}
+			}
+			cur = next
+		}
+		largest = max(largest, len(cur))
+		for _, key := range cur {
+			exp[key] += uint(count)
+		}
+	}
+	detail := map[string]any{"k": k, "read": string(read), "count": count, "words_of_the_largest_window": largest, "expected_nodes": len(exp)}
+	var g *obikmer.DeBruijnGraph
+	c.Risk(fmt.Sprintf("Push k=%d degenerate read %s", k, read))
+	if p, msg := guard(func() {
+		g = obikmer.MakeDeBruijnGraph(k)
+		g.Push(bs(read, count))
+	}); p {
+		violate(c, "panic:push:degenerate", "DeBruijnGraph.Push panicked: "+msg, detail)
+		return
+	}
+	nodes := g.VerifNodes()
+	c.Count("evaluations", 1)
+	c.Count("degenerate_windows_beyond_2^20_words", b2i(largest > 1<<20))
+	c.Count("degenerate_nodes_compared", len(exp))
+	c.Key("deg/%d/%d/%d", k, len(block), largest>>18)
+	bad, missing, extra := 0, 0, 0
+	var first string
+	for key, w := range exp {
+		if nodes[key] != w {
+			bad++
+			if nodes[key] == 0 {
+				missing++
+			}
+			if x, _ := ref.DecodeKmer(key, k); first == "" || x < first {
+				first = x
+			}
+		}
+	}
+	for key := range nodes {
+		if _, ok := exp[key]; !ok {
+			extra++
+		}
+	}
+	if bad > 0 || extra > 0 {
+		detail["words_with_a_wrong_weight"], detail["of_which_absent"], detail["nodes_in_no_window"], detail["smallest_wrong_word"] = bad, missing, extra, first
+		violate(c, "weight:degenerate-window", fmt.Sprintf("%d of the %d words the windows of the read stand for do not weigh count x occurrences (%d absent), %d nodes occur in no window", bad, len(exp), missing, extra), detail)
+	}
+	c.Sample(detail)
+}
+
+func b2i(b bool) int {
+	if b {
+		return 1
+	}
+	return 0
+}
+
 // ---------------------------------------------------------------------------
 // path / cycle
 // ---------------------------------------------------------------------------
@@ -901,7 +985,7 @@ func init() {
 		Rule: "real pkg/obikmer code executed next to a string-level reference. weights: sequence sets (1-8 sequences with counts, reads of a template, tandem repeats, lengths <k / =k / >k up to 500, IUPAC codes) x k=2..31, node table compared with the dictionary sum(count x occurrences), each expansion of an ambiguous window counting once; " +
 			"path/cycle: graphs with bubbles, tips, several sources, inserted repeats, cycles closed across reads, tandem repeats: HasCycle vs Kahn, Nexts/Previouses/Heads vs string overlaps, HaviestPath and LongestConsensus(.,0) must be a walk from a source of the maximal weight computed by DP (confirmed by exhaustive walk enumeration on graphs of at most 60 nodes), nothing returned iff cyclic; " +
 			"identity: one sequence without repeated (k-1)-mer, length k..500; canonical: NormalizedKmerSlice of s and of revcomp(s) for Uint64/Uint128/Uint256 keys, every k with 2k <= word width, k<=64, even = plain, odd = sparse, lengths <k, =k, beyond 32/64/128 bases, ambiguity codes; fourmer: Count4Mer/Encode4mer/Index4mer/Common4Mer, lengths 0..500, fresh and reused buffers. " +
-			"Added later: graphs examined again after FilterMinWeight and after further pushes, obikmersimcount end to end for k = 2..64 plain and sparse with queries in both orientations. " +
+			"Added later: graphs examined again after FilterMinWeight and after further pushes, obikmersimcount end to end for k = 2..64 plain and sparse with queries in both orientations. weights-degenerate: one window standing for more than 2^20 words, against a numeric dictionary. " +
 			"distinct_nontrivial = distinct (k, category, set size, total length class) for weights, (k, generator, acyclic, node-count class, branching nodes, sources) for graphs of at least 2 nodes, (k, len=k or >k, length class) for identity, (key type, k, sparse, length class relative to k and to the word, ambiguity, first failing clause) for canonical, (length class, ambiguity rate, reuse) for fourmer",
 		Assume: []string{
 			"an ambiguity code stands for each of its bases: every expansion of a window counts as one occurrence of that word (weights); windows containing an ambiguity code yield no canonical k-mer (index); 4-mer tables read every symbol other than a,c,g,t,u as 'a' as documented in Encode4mer",
@@ -912,6 +996,7 @@ func init() {
 		},
 		Subs: []core.Sub{
 			{Name: "weights", N: core.Const(64, 512), Run: runWeights, Shard: 2, TimeoutS: 600},
+			{Name: "weights-degenerate", N: core.Const(2, 8), Run: runDegenerate, Shard: 1, TimeoutS: 600},
 			{Name: "path", N: core.Const(64, 512), Run: runPath, Shard: 2, TimeoutS: 600},
 			{Name: "cycle", N: core.Const(64, 512), Run: runCycle, Shard: 2, TimeoutS: 600},
 			{Name: "identity", N: core.Const(32, 256), Run: runIdentity, Shard: 2, TimeoutS: 600},
